@@ -27,7 +27,7 @@ ASSUME = [
     "server defaults, foreign keys, CHECKs, comments, unnamed constraints, expression indexes, non-default schemas are outside",
     "an upgrade rendered without batch mode that contains an operation SQLite cannot ALTER may fail loudly; such a run is outside the property",
 ]
-RULE = ("seeded random schema pairs: A = 1-4 tables (pk column + 0-5 columns over an 20-entry type catalogue, 0-3 named unique "
+RULE = ("ALL 380 ordered pairs of distinct catalogue types on one indexed column, then seeded random schema pairs: A = 1-4 tables (pk column + 0-5 columns over an 20-entry type catalogue, 0-3 named unique "
         "constraints / indexes), B = A after 0-6 random changes from 14 kinds (tables/columns added or dropped, nullability, type "
         "family, type arguments, constraint/index added, dropped, columns changed, unique flag flipped, kind swapped, renamed); "
         "each pair is run under the 4 compare_type x compare_server_default settings, each with render_as_batch False and True. "
@@ -48,7 +48,12 @@ LEVEL_NOTE = ("Partial: closed type catalogue, SQLite only, no server defaults /
 
 def generate(tier, seed):
     rnd = random.Random(seed * 7919 + 6)
-    n = 400 if tier == "quick" else 10000
+    n = 400 if tier == "quick" else 8000
+    import copy
+    for A, y in S.type_matrix(True):          # all 380 ordered pairs of distinct catalogue types on one (indexed) column
+        B = copy.deepcopy(A)
+        B[0]["cols"][1][1], B[0]["cols"][1][2] = y[0], list(y[1])
+        yield {"A": A, "B": B, "desc": ["type_matrix"]}
     for _ in range(n):
         A, B, desc = S.gen_pair(rnd)
         yield {"A": A, "B": B, "desc": desc}
